@@ -287,7 +287,7 @@ class Check:
                                fl.witness(s) if s else [])
         return edges
 
-    def who_calls(self, rule, facts, callee, allowed, why="", min_callers=1, kinds=("call", "ref")):
+    def who_calls(self, rule, facts, callee, allowed, why="", min_callers=1, kinds=("call", "ref"), prefixes=()):
         """whole-program: callers of `callee` are within `allowed` (dict caller-name -> reason)"""
         cs = [c for c in facts.callers(callee) if c[3] in kinds]
         self.stats["callers_checked"] += len(cs)
@@ -298,6 +298,8 @@ class Check:
             where = "%s:%d" % (os.path.relpath(f, units.REPO), l)
             if n in allowed:
                 self.ok(rule, where, "caller %s of %s is in the confirmed set (%s)" % (n, callee, allowed[n]))
+            elif any(n.startswith(p) for p in prefixes):
+                self.ok(rule, where, "caller %s of %s is inside the owning module (%s*)" % (n, callee, [p for p in prefixes if n.startswith(p)][0]))
             else:
                 self.violation(rule, "%s|who-calls|%s|%s" % (rule, callee, n), where,
                                "%s %s %s outside the confirmed caller set {%s} %s" % (n, "calls" if k == "call" else "takes the address of", callee, ", ".join(sorted(allowed)), why))
